@@ -224,10 +224,12 @@ func (l *Log) Append(b []byte) error {
 		if err := l.Commit(); err != nil {
 			return err
 		}
+		verifPoint("append.rollover.committed")
 		s, err := openSegment(l.dir, l.LastIndex(), l.opt)
 		if err != nil {
 			return err
 		}
+		verifPoint("append.rollover.created")
 		connect(l.last, s)
 		l.last = s
 	}
